@@ -1430,7 +1430,24 @@ func (g *G) strStmt() {
 
 func (g *G) stdlibStmt() {
 	g.use("fmt")
-	switch g.r.Intn(8) {
+	switch g.r.Intn(9) {
+	case 8:
+		// a variable of type any compared with nil while it holds nothing, a scalar (also a zero one), nothing again
+		av := g.name("av")
+		lits := []string{"0", "7", `""`, `"s"`, "0.0", "2.5", "false", "true"}
+		if g.r.Bool() {
+			g.line("var %s any", av)
+		} else {
+			g.line("var %s any = %s", av, core.Pick(g.r, lits))
+		}
+		g.line("fmt.Println(%q, %s == nil, %s != nil, nil == %s)", g.name("p"), av, av, av)
+		l := core.Pick(g.r, lits)
+		g.line("%s = %s", av, l)
+		g.line("fmt.Println(%q, %s == nil, nil != %s, %s == %s, %s)", g.name("p"), av, av, av, l, av)
+		g.line("%s = nil", av)
+		g.line("if %s == nil {", av)
+		g.line("\tfmt.Println(%q)", g.name("p"))
+		g.line("}")
 	case 0:
 		g.use("strconv")
 		v, e := g.name("v"), g.name("err")
@@ -1453,7 +1470,7 @@ func (g *G) stdlibStmt() {
 	case 3:
 		g.use("strconv")
 		x, _ := g.expr(TFloat, 2)
-		g.line("fmt.Println(%q, strconv.FormatFloat(%s, '%c', %d, 64))", g.name("p"), x, core.Pick(g.r, []rune{'f', 'e', 'g'}), g.r.Range(-1, 4))
+		g.line("fmt.Println(%q, strconv.FormatFloat(%s, '%c', %d, %d))", g.name("p"), x, core.Pick(g.r, []rune{'f', 'e', 'g'}), core.Pick(g.r, []int{-1, -1, 0, 1, 2, 3, 4, 10}), core.Pick(g.r, []int{64, 64, 32}))
 	case 4:
 		g.use("errors")
 		e := g.name("err")
